@@ -366,12 +366,14 @@ def instantiate(rnd, params, args, names, mode):
     def is_scale(q):
         return any(dist[c]["kind"] == "unif" and i == 1 for c, i in children[q] if c in names)
 
-    def point():
+    def point(integer=False):
         val = {}
         for n in order:
             if n not in names:
                 continue
-            if is_scale(n):
+            if integer:           # an integer point (may be passed with an integer dtype)
+                v = 4 * (rnd.choice([1, 2, 4]) if is_scale(n) else rnd.randint(-1, 4))
+            elif is_scale(n):
                 if rnd.random() < 0.85:
                     v = rnd.choice([4, 8, 16] if needs_int(n) else [2, 4, 8, 16])
                 else:
@@ -419,7 +421,8 @@ def instantiate(rnd, params, args, names, mode):
     elif mode == "grad":
         for _ in range(rnd.randint(1, 2)):
             nd, nrows = shape_choice()
-            rows = [point() for _ in range(min(nrows, 3))]
+            integer = rnd.random() < 0.3
+            rows = [point(integer) for _ in range(min(nrows, 3))]
             allint = all(v % 4 == 0 for r in rows for v in r)
             sc["calls"].append(dict(op="grad", ndim=nd, rows=rows, hu=rnd.choice([0, 0, 1, 1, 2, 4]), form=rnd.choice(["array", "list"]),
                                     dtype="i" if (allint and rnd.random() < 0.5) else "f"))
@@ -463,7 +466,7 @@ CONSTANTS
 INVARIANT Emit
 CHECK_DEADLOCK FALSE
 """ % (names_const, max_args, "TRUE" if topo_only else "FALSE")
-    r = ctx.tlc("Gen_ModelPrior", "Gen_ModelPrior_%s_%d" % (names_const, max_args), cfg_text=cfg, workers=1, coverage=False,
+    r = ctx.tlc("Gen_ModelPrior", "Gen_ModelPrior_%s_%d%s" % (names_const, max_args, "t" if topo_only else ""), cfg_text=cfg, workers=1, coverage=False,
                 timeout=900, label="emit DAGs %s MaxArgs=%d" % (names_const, max_args))
     out = []
     for p in r.printed:
@@ -475,7 +478,10 @@ CHECK_DEADLOCK FALSE
 def scenarios(ctx):
     rnd = random.Random(ctx.seed)
     out = [json.loads(json.dumps(PINNED_F8)), json.loads(json.dumps(PINNED_F27))]
-    em = emitted(ctx, "N3", 2, False)
+    if ctx.quick:       # the quick tier emits the topologically named 3-parameter DAGs and the 1-argument ones in any name order
+        em = emitted(ctx, "N3", 2, True) + emitted(ctx, "N3", 1, False)
+    else:
+        em = emitted(ctx, "N3", 2, False)
     em2 = emitted(ctx, "N2", 2, False)
     n_em = len(em) + len(em2)
     take = rnd.sample(em, min(len(em), 700 if ctx.quick else len(em))) + em2
